@@ -194,6 +194,11 @@ def run_repeat(spec, rec):
                 cs.extend(cs[:1])
                 cs.reverse()
                 rec.count("returned_lists_mutated_by_caller")
+                # ... and the very next call asks for the same input again
+                _, ser2 = evaluate(text, list(steps) if steps is not None else None, opts, toks)
+                if ser2 != first[key]:
+                    rec.violation("C15.repeat_differs_after_caller_changed_result", dict(text=text, steps=steps, opts=opts),
+                                  observed=ser2[:4], expected=first[key][:4])
             if rng.random() < 0.3:
                 evaluate(gen.dense_doc(rng, maxfrag=3), None, OPTS[0], toks)   # unrelated text in between
     # deep snapshot: results returned earlier must still serialise the same
